@@ -109,7 +109,12 @@ def vocabulary(n):
 
 
 def compare(actual, expected_src, alternatives=()):
-    exp_nodes = [ast.parse(s, mode='eval').body for s in (expected_src,) + tuple(alternatives)]
+    # both sides in the canonical form of the analysed program (comparison direction, ...)
+    from .normalise import normalise
+    import copy
+    exp_nodes = [normalise(ast.parse(s, mode='eval')).body for s in (expected_src,) + tuple(alternatives)]
+    if isinstance(actual, ast.AST):
+        actual = normalise(ast.Expression(body=copy.deepcopy(actual))).body
     ca = canon(actual)
     for e in exp_nodes:
         if canon(e) == ca: return 'equal'
